@@ -24,7 +24,7 @@ import z3
 from . import sym
 from .engine import discharge, explore, model_value
 from .interp import Interp, function_ast, module_ast
-from .sym import Inapplicable, PathEnd, SBool, SInt, SNum, SStr, Digits, Fmt, Lit, cur
+from .sym import Inapplicable, PathEnd, SBool, SInt, SNum, SStr, SEnum, Digits, Fmt, Lit, cur
 
 
 class Raised:
@@ -121,6 +121,13 @@ class SymCase:
         self.inputs[name] = ("pick", i)
         return options[i]
 
+    def enum(self, name, cls):
+        """a symbolic member of an Enum class"""
+        v = z3.Int(name)
+        self.p.assume(z3.And(v >= 0, v < len(list(cls))))
+        self.inputs[name] = ("enum", v, cls)
+        return SEnum(cls, v)
+
     def new(self, cls, **fields):
         obj = cls.__new__(cls)
         for k, v in fields.items():
@@ -158,6 +165,39 @@ class SymCase:
     def is_str(self, v):
         return isinstance(v, (str, SStr))
 
+    def as_bool(self, v):
+        """truthiness of a value as a (possibly symbolic) bool, without branching when possible"""
+        if isinstance(v, (bool, SBool)):
+            return v
+        return self.interp.truth(v)
+
+    def conj(self, *xs):
+        xs = [x for x in xs if x is not True]
+        if any(x is False for x in xs):
+            return False
+        if not xs:
+            return True
+        return sym.mkbool(z3.And(*[sym.zbool(x) for x in xs]))
+
+    def disj(self, *xs):
+        xs = [x for x in xs if x is not False]
+        if any(x is True for x in xs):
+            return True
+        if not xs:
+            return False
+        return sym.mkbool(z3.Or(*[sym.zbool(x) for x in xs]))
+
+    def neg(self, x):
+        return sym.snot(x) if isinstance(x, SBool) else (not x)
+
+    def iff(self, a, b):
+        if isinstance(a, bool) and isinstance(b, bool):
+            return a == b
+        return sym.mkbool(sym.zbool(a) == sym.zbool(b))
+
+    def implies(self, a, b):
+        return self.disj(self.neg(a), b)
+
     def entails(self, cond):
         return self.p.entails(sym.zbool(cond))
 
@@ -165,9 +205,12 @@ class SymCase:
         return self.interp.truth(v)
 
     # calling the function under contract -------------------------------------------
-    def call(self, fn, *args, raises=(), **kwargs):
+    def call(self, fn, *args, raises=(), compare=True, **kwargs):
+        """compare: how the CPython cross-check compares this result with the native one:
+        True = equal values, 'truth' = equal truthiness, False = not compared (uninterpreted)"""
         if isinstance(fn, (staticmethod, classmethod)):
             fn = fn.__func__
+        self.p.ghost.setdefault("compare", []).append(compare)
         try:
             if inspect.ismethod(fn) or isinstance(fn, type):
                 r = self.interp.call(fn, list(args), kwargs)
@@ -233,6 +276,9 @@ class ConcCase:
     def pick(self, name, options):
         return list(options)[self._get(name)]
 
+    def enum(self, name, cls):
+        return list(cls)[self._get(name)]
+
     def new(self, cls, **fields):
         obj = cls.__new__(cls)
         for k, v in fields.items():
@@ -261,13 +307,31 @@ class ConcCase:
     def is_str(self, v):
         return isinstance(v, str)
 
+    def as_bool(self, v):
+        return bool(v)
+
+    def conj(self, *xs):
+        return all(bool(x) for x in xs)
+
+    def disj(self, *xs):
+        return any(bool(x) for x in xs)
+
+    def neg(self, x):
+        return not x
+
+    def iff(self, a, b):
+        return bool(a) == bool(b)
+
+    def implies(self, a, b):
+        return (not a) or bool(b)
+
     def entails(self, cond):
         return bool(cond)
 
     def truth(self, v):
         return bool(v)
 
-    def call(self, fn, *args, raises=(), **kwargs):
+    def call(self, fn, *args, raises=(), compare=True, **kwargs):
         if isinstance(fn, (staticmethod, classmethod)):
             fn = fn.__func__
         try:
@@ -418,6 +482,8 @@ def valuation_from_model(model, inputs):
             val[name] = bool(model_value(model, d[1]))
         elif kind == "pick":
             val[name] = d[1]
+        elif kind == "enum":
+            val[name] = model_value(model, d[1])
     return val
 
 
@@ -429,6 +495,8 @@ def concretize(x, model):
         return bool(model_value(model, x.t))
     if isinstance(x, SNum):
         return model_value(model, x.t)
+    if isinstance(x, SEnum):
+        return list(x.cls)[model_value(model, x.t)]
     if isinstance(x, SStr):
         out = ""
         for a in x.atoms:
@@ -633,7 +701,20 @@ class Verifier:
             return
         symres = o["ghost"].get("results", [])
         ok = True
-        for sr, crs in zip(symres, c.results):
+        modes = o["ghost"].get("compare", [])
+        for i, (sr, crs) in enumerate(zip(symres, c.results)):
+            mode = modes[i] if i < len(modes) else True
+            if mode is False:
+                continue
+            if mode == "truth" and not isinstance(sr, Raised) and not isinstance(crs, Raised):
+                cv = concretize(sr, m)
+                if cv is NotImplemented:
+                    continue
+                if bool(cv) != bool(crs):
+                    ok = False
+                    res.crosscheck["mismatch"].append({"valuation": _jsonable(val), "symbolic": _short(cv),
+                                                       "native": _short(crs), "mode": "truth"})
+                continue
             if isinstance(sr, Raised) or isinstance(crs, Raised):
                 if not (isinstance(sr, Raised) and isinstance(crs, Raised)
                         and type(sr.exc) is type(crs.exc)):
